@@ -832,10 +832,10 @@ class Ownership:
 
     # ---- verdict ----------------------------------------------------------------------------------------------------
     END = _re.compile(r"end:d(-?\d+),(-?\d+)/(-?\d+),(-?\d+):w(\d+):k(\d+)(?:@(-?\d+):([a-z0-9]+)(?:~([a-z0-9-]*))?)?:l(\d+)$")
-    FLAG = _re.compile(r"(OUT|CHG|UNREL|LINK|FREED|NC|REST|DICT|CTX|NOTFIRST)!")
+    FLAG = _re.compile(r"(OUT|CHG|UNREL|LINK|FREED|NC|REST|DICT|CTX|NOTFIRST|LOGLOC)!")
     FLAGTAG = {"OUT": "out-not-null", "CHG": "input-changed", "UNREL": "unrelated-changed", "LINK": "link-broken", "FREED": "input-freed",
                "NC": "not-consumed", "REST": "free-changed-rest", "DICT": "dict-changed-by-failed-load", "CTX": "context-broken-by-load",
-               "NOTFIRST": "not-first-sibling"}
+               "NOTFIRST": "not-first-sibling", "LOGLOC": "log-location-unbalanced"}
 
     def judge(self, line, out):
         if out.startswith("CRASH(") or out == "TIMEOUT":
